@@ -180,15 +180,29 @@ class Ctx:
         shards = [lines[i::nshards] for i in range(nshards)]
 
         def one(sh_lines):
-            p = subprocess.run([binary, layer], input="\n".join(sh_lines) + "\n", stdout=subprocess.PIPE,
-                               stderr=subprocess.PIPE, text=True, timeout=timeout)
-            out = p.stdout.split("\n")
-            if out and out[-1] == "":
-                out.pop()
-            if len(out) != len(sh_lines):
-                # the process died: mark the first unanswered case
-                out = out + ["ABORT rc=%d %s" % (p.returncode, p.stderr.strip()[-200:].replace("\n", " "))] + ["SKIPPED"] * (len(sh_lines) - len(out) - 1)
-            return out
+            """Feeds the cases to the binary; when the process ends early (it asked for a restart, or it
+            aborted) the remaining cases go to a fresh process."""
+            res = []
+            todo = list(sh_lines)
+            while todo:
+                p = subprocess.run([binary, layer], input="\n".join(todo) + "\n", stdout=subprocess.PIPE,
+                                   stderr=subprocess.PIPE, text=True, timeout=timeout)
+                out = p.stdout.split("\n")
+                if out and out[-1] == "":
+                    out.pop()
+                if out and out[-1] == "RESTART":
+                    out.pop()
+                    res.extend(out)
+                    todo = todo[len(out):]
+                    continue
+                if len(out) >= len(todo):
+                    res.extend(out[:len(todo)])
+                    break
+                # the process died while running case number len(out)
+                res.extend(out)
+                res.append("ABORT rc=%d %s" % (p.returncode, p.stderr.strip()[-160:].replace("\n", " ")))
+                todo = todo[len(out) + 1:]
+            return res
         with ThreadPoolExecutor(max_workers=nshards) as ex:
             outs = list(ex.map(one, shards))
         res = [None] * len(lines)
